@@ -72,3 +72,37 @@ def random_cases(rng, n, heavy=False, multi=0.15):
             kw.pop('eci', None)
         out.append(mk(content, fn=fn, tag=cls, **kw))
     return out
+
+
+def suite_under_monitors(props, rec):
+    """Runs the repository's test-suite with the encode monitor installed and merges what the monitor saw
+    into `rec` (used by main_phase of the encode-side checks, thorough tier)."""
+    import json
+    import os
+    import subprocess
+    import sys
+    import tempfile
+    os.makedirs(core.WORK, exist_ok=True)
+    fd, out = tempfile.mkstemp(prefix='suite-', suffix='.json', dir=core.WORK)
+    os.close(fd)
+    env = core.child_env()
+    env['VMON_OUT'] = out
+    env['VMON_PROPS'] = ','.join(sorted(props))
+    p = subprocess.run([sys.executable, '-m', 'pytest', '-p', 'vmon.pytest_plugin', '-p', 'no:cacheprovider', '-q', '-x',
+                        '--no-header', 'tests'], cwd=core.REPO, env=env, capture_output=True, text=True, timeout=3600)
+    tail = (p.stdout.strip().splitlines() or [''])[-1]
+    rec.extra['repository_suite_under_monitors'] = tail[:120]
+    try:
+        with open(out) as f:
+            d = json.load(f)
+    finally:
+        try:
+            os.remove(out)
+        except OSError:
+            pass
+    rec.counters.update({('suite:' + k if not k.startswith(('mode:', 'evaluations')) else k): v for k, v in d['counters'].items()})
+    rec.deviations.extend(d['deviations'])
+    rec.dev_counts.update(d['dev_counts'])
+    rec.distinct.update(d['distinct'])
+    if ' passed' not in tail or ' failed' in tail:
+        rec.extra.setdefault('problems_suite', []).append('repository suite did not pass under the monitors: %s' % tail[:200])
